@@ -3,7 +3,8 @@ import Fatchoy.Drv.Util
 namespace Fatchoy.C20
 open Fatchoy.Drv
 
-/-- `node <service> <instance>` → every observable of the id; `parse <text>` → value or `err` -/
+/-- `node <service> <instance>` → every observable of the id; `parse <text>` → value or `err`;
+`tr <fn> <args…>` → value of the translated function `Gen.C20.Tr.<fn>` -/
 def drvStep (_ : Unit) (line : String) : Unit × String :=
   match words line with
   | ["node", s, i] =>
@@ -24,6 +25,11 @@ def drvStep (_ : Unit) (line : String) : Unit × String :=
     | some v => ((), s!"ok {v}")
     | none => ((), "err")
   | ["parse"] => ((), "err")
+  | "tr" :: fn :: args =>
+    -- the translated source (Gen/C20.lean `Tr`) evaluated on the given arguments
+    match args.mapM int? with
+    | some a => (match Gen.C20.Tr.eval fn a with | some s => ((), s) | none => ((), "bad-op"))
+    | none => ((), "bad-op")
   | _ => ((), "bad-op")
 
 def drvMain : IO Unit := run () drvStep
